@@ -113,8 +113,9 @@ impl<'a, 'b> Sub<&'b Value> for &'a Value {
                     "Subtraction of units with mismatched units is not meaningful".to_string()
                 })
                 .map(Value::Number),
-            (&Value::DateTime(ref left), &Value::Number(ref right))
-            | (&Value::Number(ref right), &Value::DateTime(ref left)) => match *left {
+            // Not the other way around: a duration minus a date is not
+            // a date (unlike addition, which commutes).
+            (&Value::DateTime(ref left), &Value::Number(ref right)) => match *left {
                 GenericDateTime::Fixed(left) => left
                     .checked_sub_signed(datetime::to_duration(right)?)
                     .map(GenericDateTime::Fixed),
